@@ -273,4 +273,26 @@ def Refused (x : Ctx) (c : Nat) (resp : Option Json) (x' : Ctx) : Prop :=
 theorem refused_sendResponse (x : Ctx) (c : Nat) (resp : Option Json) :
     Refused x c resp (sendResponse x c resp).1 := ⟨sendResponse_st x c resp, sendResponse_out x c resp⟩
 
+/-! ## change, success path -/
+
+theorem changedState_store {s : State} (hwf : WFS s) {c : Nat} {p : Peer} (hp : findPeer s.peers c = some p)
+    {path : Bytes} {e : Element} (hfe : findElement s path = some e) (hown : e.owner = c) (v : Json) :
+    store (changedState s c path e v) =
+      (updImage (image s.peers) c (changeG path (setValue (info e) v)), s.index) ∧
+    (c, peerAbs p) ∈ image s.peers ∧ (path, info e) ∈ peerAbs p := by
+  obtain ⟨hm, hmem, hc⟩ := mem_image_of_findPeer hp
+  obtain ⟨o, q, ho, hq, heq, hpath⟩ := findElement_some hfe
+  obtain ⟨hmq, hmemq, hcq⟩ := mem_image_of_findPeer hq
+  have hoc : o = c := by
+    have := WFP.owner hwf o (peerAbs q) hmq e.path (info e) (List.mem_map.2 ⟨e, heq, rfl⟩)
+    simp only [info] at this
+    rw [← this, hown]
+  subst hoc
+  have hqp : q = p := by rw [hp] at hq; exact (Option.some.inj hq).symm
+  subst hqp
+  refine ⟨?_, hm, by rw [← hpath]; exact List.mem_map.2 ⟨e, heq, rfl⟩⟩
+  simp only [store_def, changedState]
+  rw [image_change_element _ _ _ { e with value := some v } hpath]
+  rfl
+
 end Cjet.Daemon.C04
